@@ -25,7 +25,7 @@ SPECIES = ["H2", "O2", "N2", "H2O", "CH2(S)"]
 
 
 def cases(tier, seed):
-    n = 32 if tier == "quick" else 150
+    n = 32 if tier == "quick" else 600
     rng = random.Random(seed + 1700)
     cs = []
     for i in range(n):
